@@ -50,7 +50,7 @@ PROPERTIES["C12"] = dict(
     ],
 )
 
-PIPE_FILES = ["pipeline/zz_verif_pipe.go", "pipeline/zz_verif_p08.go", "pipeline/zz_verif_p01.go", "pipeline/zz_verif_p01b.go", "pipeline/zz_verif_p01x.go", "pipeline/zz_verif_p01r.go", "pipeline/zz_verif_p13.go", "pipeline/zz_verif_p10.go", "pipeline/zz_verif_p09.go", "pipeline/zz_verif_p07.go", "config::config/zz_verif_export.go", "annotation::annotation/zz_verif_export.go", "assertion/global::global/zz_verif_export.go"]
+PIPE_FILES = ["pipeline/zz_verif_pipe.go", "pipeline/zz_verif_p08.go", "pipeline/zz_verif_p01.go", "pipeline/zz_verif_p01b.go", "pipeline/zz_verif_p01x.go", "pipeline/zz_verif_p01r.go", "pipeline/zz_verif_p13.go", "pipeline/zz_verif_p10.go", "pipeline/zz_verif_p09.go", "pipeline/zz_verif_p14.go", "pipeline/zz_verif_p07.go", "config::config/zz_verif_export.go", "annotation::annotation/zz_verif_export.go", "assertion/global::global/zz_verif_export.go"]
 INFER_FILES = ["inference/zz_verif_c05.go", "inference/zz_verif_c05l2.go", "inference/zz_verif_c06.go", "inference/zz_verif_c04.go", "inference/zz_verif_c15.go", "inference/zz_verif_c15m.go", "inference/zz_verif_c08.go", "inference/zz_verif_registry.go",
                "annotation::annotation/zz_verif_export.go"]
 
@@ -530,3 +530,9 @@ PROPERTIES["C09"]["explanation"] += (" Source level (P09): " + PIPE_EXPL + "plus
     "single package and split (interface and use() in a dependency). The dispatch is evaluated over the opaque flag: panic possible => reported; well-behaved implementations => clean.")
 PROPERTIES["C09"]["bounds"]["quick"] += "; source level: all 512 programs of the P09 family (256 single-package, 256 split)"
 PROPERTIES["C09"]["outside"] = [o for o in PROPERTIES["C09"]["outside"]] + ["source level: more than two implementations or one interface, embedded structs, conversions by return / composite literal / append"]
+
+PROPERTIES["C14"]["runs"] += [dict(pkg="accumulation", files=PIPE_FILES, entry="Harness_P14", quick=dict(params=dict(STMTS=2, COMPOUND=5)), thorough=dict(params=dict(STMTS=3, COMPOUND=5)), args=dict(sample_every=61, max_samples=16))]
+PROPERTIES["C14"]["explanation"] += (" Source level (P14): " + PIPE_EXPL + "for every two-package program of the P01X family each diagnostic has a valid position that resolves to an existing line and column of p.go or q.go "
+    "(findings in the dependency's file included), its message lists at least one flow step, every positioned step names an existing file:line:column, and the last positioned step is the reported position.")
+PROPERTIES["C14"]["bounds"]["quick"] += "; source level: the 1043 two-statement two-package programs"
+PROPERTIES["C14"]["outside"] = PROPERTIES["C14"]["outside"] + ["source level: the dependency's file is parsed into the importer's file set (real line tables), not recreated as a fake file from export data - that mapping is the toPos kernel"]
